@@ -1537,6 +1537,20 @@ class FnEmitter:
             if e != 'LOG_VALUE':
                 self.w(e + ';')
             return
+        n0 = self.strip(n)
+        while n0.get('kind') in ('ExprWithCleanups', 'ParenExpr') and kids(n0):
+            n0 = self.strip(kids(n0)[0])
+        if n0.get('kind') == 'BinaryOperator' and n0.get('opcode') == '=' and self.cfg.get('may_throw'):
+            a, b = kids(n0)
+            rhs = self.expr(b)
+            if self.may_throw_in(rhs):
+                # `x = f()` with f throwing: the right-hand side is evaluated first, x keeps its value when f throws
+                self.tmp_no = getattr(self, 'tmp_no', 0) + 1
+                t = '__rhs%d' % self.tmp_no
+                self.w('%s %s = %s;' % (self.ct(n0), t, rhs))
+                self.propagate(rhs)
+                self.w('(%s = %s);' % (self.expr(a), t))
+                return
         e = self.expr(n)
         self.w(e + ';')
         self.propagate(e)
@@ -1618,7 +1632,14 @@ class FnEmitter:
                 return
             self.u.register_lambda(self, lam, name)
             return
-        ct = self.ty.ctype_of(tq)
+        try:
+            ct = self.ty.ctype_of(tq)
+        except Unsupported:
+            # a deduced type that clang prints with a class-local typedef (`std::pair<iterator, bool>`): the
+            # initialiser's own type carries the resolved spelling
+            if init is None:
+                raise
+            ct = self.ct(init)
         if init is not None and 'desugaredQualType' not in tq and d.get('isImplicit'):
             # `auto&&` range variable bound to a data member: clang prints the member's type as written
             # (unqualified names); the member's own declaration has the resolved spelling
